@@ -24,11 +24,12 @@ if not patch.strip():
 (out / "patch.diff").write_text(patch)
 r1 = sh(f"/venv/bin/python {out}/demo.py")
 r2 = sh("/venv/bin/python -m pytest -q -p no:cacheprovider -n 8 -x 2>&1 | tail -1")
-sh("git stash -q")
+# (no git stash here: the stash stack is shared by all worktrees of a repository, parallel jobs would swap their changes)
+sh("git checkout -- src")
 try:
     r3 = sh(f"/venv/bin/python {out}/demo.py")
 finally:
-    sh("git stash pop -q")
+    sh(f"git apply {out}/patch.diff")
 suite_ok = " passed" in "".join(r2.stdout) and "failed" not in r2.stdout and "error" not in r2.stdout.lower()
 confirmed = r1.returncode != 0 and suite_ok and r3.returncode == 0
 print("demo with change:", r1.returncode, "| suite:", r2.stdout.strip(), "| demo without:", r3.returncode, "| confirmed:", confirmed)
